@@ -1232,6 +1232,8 @@ def gen_modules(rng, tier):
                     c["p"], c["q"] = rng.choice([(1, 1), (2, 1), (2, 0.5), (3, 1), (2, None)])
                 if kind == "elasticity":
                     c["lame"] = rng.choice(LAME_OK)
+                if rng.random() < 0.4:
+                    c["spacing"] = {"value": None}     # default spacing 2/(n-1): depends on the shape of the field of EACH call
                 yield c
 
 
@@ -1245,7 +1247,8 @@ def check_modules(c):
             return ("C17:elasticity:bspline-mode:shape-error", f"elasticity_loss(mode='bspline', stride={c.get('stride')}): {str(e)[:90]}")
         raise
     try:
-        b = MODULES[c["kind"]](**kw)(u)
+        module = MODULES[c["kind"]](**kw)
+        b = module(u)
     except RuntimeError as e:
         if c["kind"] == "elasticity" and c.get("stride") not in (None, 1):
             return ("C17:Elasticity-module:stride-dropped", f"losses.flow.Elasticity(mode='bspline', stride={c['stride']}) raises "
@@ -1255,6 +1258,15 @@ def check_modules(c):
         if c["kind"] == "elasticity" and c.get("stride") not in (None, 1):
             return ("C17:Elasticity-module:stride-dropped", f"losses.flow.Elasticity(stride={c['stride']}) differs from elasticity_loss")
         return (f"C17:{c['kind']}:module-vs-functional", f"module {MODULES[c['kind']].__name__} differs from the functional form")
+    # a loss module carries no state from one call to the next: the SAME instance applied to a field of another shape
+    # (coarse-to-fine pyramid) gives the functional value for that field
+    if c.get("mode") != "bspline":
+        c2 = dict(c, shape=[n + 2 + k for k, n in enumerate(c["shape"])], seed=c["seed"] + 1)
+        u2 = random_field(c2)
+        a2, b2 = FUNCS[c["kind"]](u2, **kw), module(u2)
+        if a2.shape != b2.shape or float((a2 - b2).abs().max()) > 0:
+            return (f"C17:{c['kind']}:module-reuse", f"{MODULES[c['kind']].__name__} called a second time on a field of shape "
+                    f"{list(u2.shape)} (after {list(u.shape)}) differs from the functional form by {float((a2 - b2).abs().max()):.3e}")
     return None
 
 
